@@ -121,6 +121,17 @@ func (o *overlayEnviron) Set(name string, vr expand.Variable) error {
 	return nil
 }
 
+// localInFunc reports whether name is already declared in the scope
+// of the function call being run.
+func (r *Runner) localInFunc(name string) bool {
+	o, ok := r.writeEnv.(*overlayEnviron)
+	if !ok || !o.funcScope {
+		return false
+	}
+	_, inOverlay := o.values[o.normalize(name)]
+	return inOverlay
+}
+
 func (o *overlayEnviron) Each(f func(name string, vr expand.Variable) bool) {
 	if o.parent != nil {
 		o.parent.Each(f)
